@@ -17,8 +17,8 @@ META = {
         'assumptions': ['Kani/CBMC model of rustc MIR semantics', 'models of ndarray::Array2 and hashbrown::HashSet in /verif/models meet the documented contracts', 'stored rows contain at least one base and counts equal the number of non-gap symbols (what build/merge/delete store)'],
     },
     'C04': {
-        'bounds': 'AlnWriter: one step / finalise from every state satisfying the invariant, contig layouts of total length 12-17 at h=2 and h=3 (k=5, 7); mapping: <= 3 reference k-mers x 2 samples; reference indexing (RefSka::new): one contig of 6 bases (7 with N, thorough), k=5',
-        'outside': ['the repeat mask coordinates computed by RefSka::new (--repeat-mask): three-contig harnesses with repeat tracking did not finish in 2 h, so the part of the property about repeat masking rests on C04.fin only (the writer masks exactly the coordinates it is given) and the defect the property anchors there is NOT decided', 'FASTA text of the output', 'rayon schedule of pseudoalignment (sequential model)', 'references longer than the bounds', 'k > 7 for the writer (its code depends on k only through h)', 'generic_modes::map beyond the calls listed'],
+        'bounds': 'AlnWriter: one step / finalise from every state satisfying the invariant, contig layouts of total length 12-17 at h=2 and h=3 (k=5, 7); mapping: <= 3 reference k-mers x 2 samples; reference indexing (RefSka::new): one contig of 5 bases (= k) and of 6 symbols with N (quick), 6 and 7-with-N (thorough), k=5; repeat coordinates (thorough): contigs AC?TA|?|AC?TA and AC?TA|AC?TAC with symbolic middle bases',
+        'outside': ['the repeat mask coordinates computed by RefSka::new (--repeat-mask) beyond the two small thorough-tier layouts with concrete arms (C04.ref.mid.*); harnesses with every base symbolic did not finish in 2 h; in the quick tier the repeat clause rests on C04.fin only (the writer masks exactly the coordinates it is given)', 'FASTA text of the output', 'rayon schedule of pseudoalignment (sequential model)', 'references longer than the bounds', 'k > 7 for the writer (its code depends on k only through h)', 'generic_modes::map beyond the calls listed'],
         'assumptions': ['Kani/CBMC model of rustc MIR semantics', 'the AlnWriter representation invariant of DESIGN appendix B (checked inductive: init + step; its adequacy is cross-checked by C04.hist without the invariant)', 'centres arrive in reference order and are valid (delivered by RefSka::new/map: C01.win, C04.map)', 'library models in /verif/models'],
     },
     'C02': {
@@ -33,14 +33,14 @@ META = {
         'assumptions': ['Kani/CBMC model of rustc MIR semantics', 'hashbrown/ndarray/needletail::write_fasta models in /verif/models'],
     },
     'C05': {
-        'level_text': 'Bounded model checking of the decidable kernels ONLY: the (contig, offset) iterator that places VCF records, the reference-byte to REF-base mapping over all 256 bytes, and (shared with C04) that the reference is stored upper-case. write_vcf itself (genotype numbering, ALT list, "." for gaps, header and sample order) cannot be encoded (noodles-vcf formatting, to_string on symbolic values, rayon) and is NOT decided by this check; a seeded change in its genotype index was, as expected, not detected.',
+        'level_text': 'Bounded model checking of the decidable kernels ONLY: the (contig, offset) iterator that places VCF records, the reference-byte to REF-base mapping over all 256 bytes, and (shared with C04) that the reference is stored upper-case. write_vcf itself (genotype numbering, ALT list, "." for gaps, header and sample order) cannot be encoded (noodles-vcf formatting, to_string on symbolic values, rayon) and is NOT decided by this check; a seeded change in its genotype index was, as expected, not detected. A harness for write_vcf against a recording noodles_vcf model was built and exhausts 24 GB even for 1 sample x 1 position (kept in /verif/attic/c05_vcf, not registered).',
         'bounds': 'coordinate iterator: 3 contigs of length 1..=4 (4 x 1..=6 thorough); REF mapping: all 256 bytes',
         'outside': ['write_vcf itself (rayon pseudo-alignment, genotype strings via to_string, noodles-vcf formatting): allele numbering, "." for "-", header and sample order are NOT decided by this check', 'empty contigs'],
         'assumptions': ['Kani/CBMC model of rustc MIR semantics', 'every contig is non-empty'],
     },
     'C07': {
         'bounds': 'extend: 1+2 and 2+1 samples over a 2-key universe, all 16 presence patterns (quick: 6 by VERIF_SEED); round trip: 2 x 3; refusal: k and strand mismatch',
-        'outside': ['generic_modes::merge file handling ("no output file is written" holds because save_skf follows the panicking call: read, not solver-checked)', '128-bit files as files (the dictionary code is width-generic)', 'more than 3 samples / 2 keys'],
+        'outside': ['generic_modes::merge itself (file loading, argument order of the inputs, save_skf): a wrapper harness with a load provider exhausted 16 GB and is not registered; "no output file is written" on refusal holds because save_skf follows the panicking call: read, not solver-checked', '128-bit files as files (the dictionary code is width-generic)', 'more than 3 samples / 2 keys'],
         'assumptions': ['Kani/CBMC model of rustc MIR semantics', 'hashbrown/ndarray models in /verif/models (iteration order = insertion order)'],
     },
     'C08': {
@@ -67,11 +67,11 @@ META = {
     },
     'C13': {
         'bounds': '2 k-mers x 2 samples, weed list <= 2 values of a 3-value universe, both directions; wrapper: 2 x 3 / 1 x 3',
-        'outside': ['the weed k-mer set as a function of seqs.fa (= RefSka::new k-mer list, decided for one contig by C04.case) composed with weed', 'weeding a second time changes nothing (the two-call harness exhausts 16 GB; idempotence follows from C13.weed: the result contains no weed k-mer)', 'tables beyond 2 x 3'],
+        'outside': ['the weed k-mer set as a function of seqs.fa (= RefSka::new k-mer list, decided for one contig -- including a contig of exactly k bases and one that starts with N -- by C04.case) composed with weed', 'weeding a second time changes nothing (the two-call harness exhausts 16 GB; idempotence follows from C13.weed: the result contains no weed k-mer)', 'tables beyond 2 x 3'],
         'assumptions': ['Kani/CBMC model of rustc MIR semantics', 'hashbrown/ndarray models', 'MergeSkaArray::save replaced by a call counter (environment stub)'],
     },
     'C14': {
-        'bounds': 'pair kernel: 4 k-mers; all pairs: 2 k-mers x 3 samples; wrapper: 1 k-mer x 2..3 samples, min_freq in {0, 0.5, 1} with --allow-ambiguous (21 configurations); without it (ambiguity filter on) only 2 samples at min_freq 0 (the other configurations exhaust 40 GB)',
+        'bounds': 'pair kernel: 4 k-mers; all pairs: 2 k-mers x 3 samples and the empty table (0 k-mers x 3 samples); wrapper: 1 k-mer x 2..3 samples, min_freq in {0, 0.5, 1} with --allow-ambiguous (21 configurations); without it (ambiguity filter on) only 2 samples at min_freq 0 (the other configurations exhaust 40 GB)',
         'outside': ['text of the output ({:.2}/{:.5} formatting)', 'the progress bar', 'more than 3 samples', 'ambiguity codes in the pair kernel beyond base_to_prob (C15.prob)', 'thread count (sequential rayon model)'],
         'assumptions': ['Kani/CBMC model of rustc MIR semantics', 'CBMC IEEE-754 semantics for the f64 arithmetic', 'ndarray/hashbrown/rayon(sequential) models', 'MergeSkaArray::distance replaced by a recorder in the wrapper obligations'],
     },
